@@ -4,7 +4,7 @@ CLAIMED["C20"] = (
     "Every contract clause of the helper functions (align, align_block, extend_block, BinaryPattern.get_block, check_range, "
     "swap16/32, reverse_bytes_in_longs, change_endianness, swap_bytes, get_bytes_cnt_of_int, value_to_int/bool ...) is a named "
     "obligation generated from the function's real AST and discharged for all inputs (unbounded ints, byte strings of any length, "
-    "loops by inductive invariant + variant). String-to-number parsing is only checked by a bounded exhaustive sweep, labelled bounded.",
+    "loops by inductive invariant + variant). String-to-number parsing is only checked by a bounded exhaustive sweep, labelled bounded. Added (round 5): BinaryPattern.get_block for numeric patterns of 1, 2, 3, 4, 5 and 8 bytes (block of any size repeats the digits).",
     "Trusted: vf's encoding of the Python subset (cross-checked per run by executing the same contracts natively on generated inputs), "
     "z3/cvc5, pow2 instance axioms, A-float. The str branch of value_to_int (regex + int(s, base)) is outside the subset: bounded only.",
     "DESIGN.md 7 C20")
@@ -40,7 +40,7 @@ CLAIMED["C19"] = (
     "bitwise, size suffixes, comparisons, logical operators, parentheses, address ranges) is a unit located by its production string and "
     "proved to return what the language semantics prescribe for all operand values; unsupported constructs (sizeof, if/else) are proved to "
     "raise; the precedence table is a data obligation against the documented C-like table; SB21Helper._fill_memory is proved to produce one "
-    "FILL command with the given address, the whole range length and the pattern as written. Lexing and the LALR automaton are external (sly). Widened: && and || on C-like truth values (any integer operands). Added (round 3): SB21Helper._load for file data with a memory option - device id / group of the statement in the LOAD command's flags.",
+    "FILL command with the given address, the whole range length and the pattern as written. Lexing and the LALR automaton are external (sly). Widened: && and || on C-like truth values (any integer operands). Added (round 3): SB21Helper._load for file data with a memory option - device id / group of the statement in the LOAD command's flags. Added (round 5, bounded): generated 1-4-section programs through parse_sb21_config and load_from_config (boot section k holds exactly the statements of BD section k); several string definitions on one line resolve to their own strings (exposed the greedy string-literal defect, repaired).",
     "Trusted: A-sly (sly builds the parser the grammar strings and precedence denote and calls exactly the action of each production), A-enc, "
     "A-smt. Symbol tables, sources, key blobs and the remaining statement actions are covered by the bounded seeded-program sweep only.",
     "DESIGN.md 7 C19")
@@ -49,7 +49,7 @@ CLAIMED["C17"] = (
     "(SBV2xAdvancedParams, OTFAD KeyBlob, BEE KIB, the MBI counter-IV accessor, random_bytes itself), the postcondition 'if the caller gave "
     "none, the field holds a value drawn during this call' — discharged from the real constructor bodies; data obligations state that the "
     "BootImageV20/V21 default for advanced_params and the MBI class-level member are not definition-time objects. IEE/BEE region/HAB "
-    "constructors and the config-file paths are covered only by the bounded two-artifact comparison and the definition-time randomness scan. Added: IeeKeyBlob.__init__ (keys given or drawn inside the call, sizes per mode), Mbi_MixinCtrInitVector.mix_load_from_config (no IV in the configuration = a new one, whatever the object held). Added (round 3): CsfHabSegment.get_dek_from_config - the DEK is drawn inside the call unless the configuration requests reuse, whatever key file an earlier build left (configuration and file-system front end assumed).",
+    "constructors and the config-file paths are covered only by the bounded two-artifact comparison and the definition-time randomness scan. Added: IeeKeyBlob.__init__ (keys given or drawn inside the call, sizes per mode), Mbi_MixinCtrInitVector.mix_load_from_config (no IV in the configuration = a new one, whatever the object held). Added (round 3): CsfHabSegment.get_dek_from_config - the DEK is drawn inside the call unless the configuration requests reuse, whatever key file an earlier build left (configuration and file-system front end assumed). Added (round 5): calls into the seedable generator of the `random` module are modelled as NOT being a draw of the OS generator, so random_bytes built on it fails `drawn-now`.",
     "Trusted: A-rng (the OS generator is fresh per call and per process; nothing is claimed across interpreter restarts beyond that), A-enc, A-smt.",
     "DESIGN.md 7 C17")
 CLAIMED["C18"] = (
@@ -58,7 +58,7 @@ CLAIMED["C18"] = (
     "os.path.exists answers anything; FileLock may time out): no exception escapes (so every file content, hence every truncated prefix, is "
     "tolerated), cached content is used only when it has the expected class and its stored hash equals the hash of the live data, and a cache "
     "file is opened only while its lock is held (ghost permission). Real process interleavings, lock time-outs as liveness and start-up "
-    "latency are outside this family; byte-exact prefixes of the real cache files are a bounded check.",
+    "latency are outside this family; byte-exact prefixes of the real cache files are a bounded check. Added (round 5): the fingerprint function itself (hash_db_data, real body) over a ghost file system: name, modification time and size of EVERY cached file and of the defaults file(s) enter the digest (1-3 cached files; stat value classes pinned to one bit length) - this exposed and now guards the repaired defect that edited database defaults were answered from a stale cache.",
     "Trusted: the assumed environment models in vf/extmodels.py (A-pickle, A-fs), assumed contracts for the hash of the live data and the "
     "full load (the uncached oracle), A-enc, A-smt.",
     "DESIGN.md 7 C18")
@@ -67,7 +67,7 @@ CLAIMED["C04"] = (
     "CmdJump construction/export/parse (stack pointer present iff given, also for SP = 0), CmdLoad.export (zero padding to 16, count, CRC-32/MPEG-2 "
     "over the padded data), ImageHeaderV2.export field by field (versions incl. component != product, flags, block counts, build number) are "
     "discharged for all field values. Section level (AES-CTR block counters, HMAC table) and whole-image level are bounded checks only; "
-    "the key-blob / signature / KEK clauses rest on C09 and the primitives. Added: BootSectionV2.export against the ROM model (header announces HMAC and block counts, every command block encrypted with the counter of its own file position, HMAC entries cover all command blocks, counter continues at the next position) with abstract commands. Added later: lemmas ERASE / MEM_ENABLE reach the ROM with range and memory and parse back.",
+    "the key-blob / signature / KEK clauses rest on C09 and the primitives. Added: BootSectionV2.export against the ROM model (header announces HMAC and block counts, every command block encrypted with the counter of its own file position, HMAC entries cover all command blocks, counter continues at the next position) with abstract commands. Added later: lemmas ERASE / MEM_ENABLE reach the ROM with range and memory and parse back. Added (round 5): CALL, PROG (eight-byte flag, memory byte), FILL (pattern word replicated from 1/2/3/4-byte patterns, every bit length by forking), FW_VERSION_CHECK, key-store backup/restore, NOP, RESET commands reach the ROM model with the operands given and parse back; CmdLoad.parse (checksum, tag and data CRC checked, payload is the bytes behind the header).",
     "Trusted: A-enc, A-smt, A-struct (struct pack/unpack as positional notation), CRC as an uninterpreted function (C09). BootSectionV2.export/"
     "parse, BootImageV2x.export/parse and the remaining command classes are NOT under contract (bounded round trips only); known finding C04-KF1: "
     "BootImageV21.parse reads only the first boot section.",
@@ -77,7 +77,7 @@ CLAIMED["C05"] = (
     "recomputed from scratch: independent of the export history), get_cmd_blocks_to_export (ceil(len/256) blocks of exactly 256 bytes that "
     "concatenate to section header || commands followed by zero padding only — stream ends at every offset mod 256), _process_block and "
     "process_cmd_blocks_to_export (block numbers, block i carries the hash of block i+1, the last block carries zeros also on a second export, "
-    "final hash = hash of block 1, payloads in order) are discharged for 1..3 data blocks with symbolic contents; the KDF is proved in C09. Added: the loader's view of commands - BaseCmd header (tag, address, length, code), ERASE, COPY, FILL_MEMORY words, LOAD (memory block, data as given, zero padding to 16) and LOAD_KEY_BLOB layouts.",
+    "final hash = hash of block 1, payloads in order) are discharged for 1..3 data blocks with symbolic contents; the KDF is proved in C09. Added: the loader's view of commands - BaseCmd header (tag, address, length, code), ERASE, COPY, FILL_MEMORY words, LOAD (memory block, data as given, zero padding to 16) and LOAD_KEY_BLOB layouts. Added (round 5): EXECUTE, CALL, RESET, CONFIGURE_MEMORY, FW_VERSION_CHECK operand words; ERASE/COPY/FILL_MEMORY and LOAD/LOAD_CMAC/LOAD_HASH_LOCKING (64 zero bytes for the hash) parse-inverts-export; section header.",
     "Trusted: hash / AES-CBC as uninterpreted functions (A-crypto-fun), A-enc, A-smt, A-struct. Commands are abstract (their own export "
     "formats are not under contract here), block counts > 3, the certificate block (C03) and SecureBinary31.export as a whole are covered by the "
     "bounded independent-loader walk over the repository's example configurations only.",
@@ -107,7 +107,7 @@ CLAIMED["C03"] = (
     "slots in key order, missing slots zero, SHA-256 of the table) for 1..4 keys and RKHTv21.rkth (single hash, or hash of the concatenation) "
     "are discharged. Since each path's result is proved equal to a spec term that mentions only the ordered key numbers, independence from the "
     "signer and agreement between these paths follow. Certificate blocks, PFR ROTKH, DAT RoT meta, AHAB/HAB SRK tables are not under contract "
-    "here (bounded / other properties); key parsing from PEM/DER/certificates is external (A-pki; bounded agreement check). Added: RootKeyRecord.parse (cert block v2.1) - root public key behind the table, one hash per root key, table entries in order, a single P-256 / P-384 root key hashed with SHA-256 / SHA-384 - for 1..4 keys and both curves. Added (round 3, bounded): HAB SRK tables built from fresh P-256/384/521 and RSA-2048 CA certificates, decoded by hand (key-size field, widths, fuse value).",
+    "here (bounded / other properties); key parsing from PEM/DER/certificates is external (A-pki; bounded agreement check). Added: RootKeyRecord.parse (cert block v2.1) - root public key behind the table, one hash per root key, table entries in order, a single P-256 / P-384 root key hashed with SHA-256 / SHA-384 - for 1..4 keys and both curves. Added (round 3, bounded): HAB SRK tables built from fresh P-256/384/521 and RSA-2048 CA certificates, decoded by hand (key-size field, widths, fuse value). Added (round 5): RKHTv1.set_rkh (slot takes the hash, other slots kept, gaps zero, in whatever order slots are set).",
     "Trusted: hashes as uninterpreted functions, A-pki (cryptography's key parsing), A-enc, A-smt, A-struct.",
     "DESIGN.md 7 C03")
 CLAIMED["C10"] = (
@@ -133,7 +133,7 @@ CLAIMED["C15"] = (
     "it is proved for all contents that the message handed to the signer is exactly credential || LE32(beacon) || [device UUID taken from the "
     "challenge, ECC versions] || challenge vector, and that the exported response is credential || LE32(beacon) || [device UUID] || signature over "
     "that message — so a response is bound to the credential, beacon, device UUID and challenge (injectivity: all parts have fixed or "
-    "credential-determined lengths). 'Never verifies against another challenge' then rests on the signature scheme (not claimed). Added: RotMetaRSA.export / calculate_hash - the RoT table is four 32-byte slots in key order with missing slots zero and its hash is the image tool's RKTH, for 1..4 keys. Added (round 3): lemmas joining the DC side (hash of the raw X || Y export) and the image side (RKHT._calc_key_hash) for P-256 / P-384 keys incl. leading-zero coordinates; both callee contracts are re-verified under this property. Added later: ECC debug credential _get_data_to_sign / export byte layouts (the signature follows exactly the signed bytes; every field in its place), RotMetaFlags export and parse-inverts-export.",
+    "credential-determined lengths). 'Never verifies against another challenge' then rests on the signature scheme (not claimed). Added: RotMetaRSA.export / calculate_hash - the RoT table is four 32-byte slots in key order with missing slots zero and its hash is the image tool's RKTH, for 1..4 keys. Added (round 3): lemmas joining the DC side (hash of the raw X || Y export) and the image side (RKHT._calc_key_hash) for P-256 / P-384 keys incl. leading-zero coordinates; both callee contracts are re-verified under this property. Added later: ECC debug credential _get_data_to_sign / export byte layouts (the signature follows exactly the signed bytes; every field in its place), RotMetaFlags export and parse-inverts-export. Added (round 5): EdgeLock-Enclave debug credential: signed bytes and exported bytes field by field (version, SoC class, UUID, SOCU, VU, beacon, RoT meta, debug key).",
     "Trusted: the signature provider as an uninterpreted function (A-crypto-fun / A-crypto-sec not claimed), A-enc, A-smt, A-struct. The debug "
     "credential classes (export/parse/_get_data_to_sign, RoT meta; RoT hash equality with C03), challenge parsing, EdgeLock-enclave v2 responses "
     "and the YAML front end are NOT under contract.",
